@@ -1,6 +1,7 @@
 /* Lock-step harness for src/work_queue.c (C17), built on include/mpsc_fifo.h.
  * params: [0] drain budget.
- * ops: (1, a) = work_queue_push of item a, 2 <= a <= WQ_NODES.  Items are the
+ * ops: (1, a) = work_queue_push of item a, 2 <= a <= WQ_NODES;
+ *      (2, a) = the same push marked "fast-forward" (see below).  Items are the
  *      mpsc nodes of one static array: nodes[i] is named i+1 in the trace, so
  *      NULL = 0, the fifo's initial stub = 1, item a = &nodes[a-1]; every node's
  *      data field initially holds its own name (that is what get_work hands
@@ -13,7 +14,22 @@
  * next push.
  * ret events: push k -> loc k+1, value = result (1 START_WORKING, 0 QUEUED);
  *             get_work inside push k -> loc 100+k+1, value = data of the item
- *             obtained (MORE_WORK) or 0 (EMPTY). */
+ *             obtained (MORE_WORK) or 0 (EMPTY).
+ * Fast-forward: in_count/out_count are only rebased when the queue momentarily
+ * runs dry, so in a session that never drains they grow without bound, and no
+ * test can afford 2^32 real pushes.  When a push marked (2, a) returns
+ * START_WORKING, the fresh worker -- before its first get_work -- adds
+ * FFAMT = 2^32 - 3 to BOTH in_count and out_count in one step (one scheduling
+ * point, event  tid 2 919 FFAMT).  This is exactly the state the public API
+ * reaches when the fresh worker performs FFAMT times (push one more item; get
+ * one item): in_count = i + FFAMT, out_count = FFAMT, same number of queued
+ * items, modulo the identity of the queued items.  It is done by the worker
+ * itself between its own calls, so it cannot race with the worker's own
+ * read-modify-write of out_count; the two additions are not instrumented
+ * (no scheduling point between them: exactly one thread runs at a time under
+ * the baton scheduler, so together they are one atomic step, like the model's
+ * pc GFfwd in coq/WorkQueue.v).  A marked push that returns QUEUED does
+ * nothing special. */
 #include "harness.h"
 #include "work_queue.h"
 
@@ -28,11 +44,21 @@ __attribute__((no_sanitize_thread, noinline)) static long item_data(work_queue_i
   return rt_canon((uint64_t)(uintptr_t)it->data);
 }
 
+#define FFAMT ((int64_t)4294967293LL)   /* 2^32 - 3 */
+__attribute__((no_sanitize_thread, noinline)) static void h_wq_ffwd(work_queue_t* q) {
+  q->in_count += FFAMT;
+  q->out_count += FFAMT;
+}
+
 static void body(int t) {
   for (int k = 0; k < cur->nops[t]; k++) {
     long a = cur->ops[t][k][1];
     int r = work_queue_push(&wq, &nodes[a - 1]);
     rt_event(k + 1, K_RET, r);
+    if (r == WORK_QUEUE_START_WORKING && cur->ops[t][k][0] == 2) {
+      rt_point(2, K_EV, FFAMT);   /* scheduling point; the additions belong to the same grant */
+      h_wq_ffwd(&wq);
+    }
     if (r == WORK_QUEUE_START_WORKING) {
       for (;;) {
         work_queue_item_t* out = NULL;
@@ -50,7 +76,8 @@ static void h_run_case(hcase_t* c) {
   for (int t = 0; t < c->nthreads; t++)
     for (int k = 0; k < c->nops[t]; k++) {
       long a = c->ops[t][k][1];
-      if (c->ops[t][k][0] != 1 || a < 2 || a > WQ_NODES) { printf("-1\n"); return; }
+      long opc = c->ops[t][k][0];
+      if ((opc != 1 && opc != 2) || a < 2 || a > WQ_NODES) { printf("-1\n"); return; }
     }
   /* exactly what work_queue_init / mpsc_fifo_init do, with the stub taken from
    * the node array instead of calloc */
